@@ -349,6 +349,8 @@ func init() {
 			return "fixed"
 		}))
 	}
+	ops["glyf.decpure"] = glyfDecPureOp
+	ops["glyf.encpure"] = glyfEncPureOp
 	ops["glyf.simple"] = glyfSimpleOp
 	ops["glyf.simplespec"] = glyfSimpleOp
 	ops["glyf.ximage"] = glyfXImageOp
@@ -477,6 +479,156 @@ func glyfParseGidMap(f Fields) map[glyph.ID]glyph.ID {
 		}
 	}
 	return m
+}
+
+// glyfRawGlyph writes one glyph without padding (the harness's own encoder: generators must not
+// call into the library under test).
+func glyfRawGlyph(g *glyf.Glyph) []byte {
+	if g == nil {
+		return nil
+	}
+	w := func(b []byte, v uint16) []byte { return append(b, byte(v>>8), byte(v)) }
+	var b []byte
+	switch d := g.Data.(type) {
+	case glyf.SimpleGlyph:
+		b = w(b, uint16(d.NumContours))
+	default:
+		b = w(b, 0xFFFF)
+	}
+	b = w(w(w(w(b, uint16(g.LLx)), uint16(g.LLy)), uint16(g.URx)), uint16(g.URy))
+	switch d := g.Data.(type) {
+	case glyf.SimpleGlyph:
+		b = append(b, d.Encoded...)
+	case glyf.CompositeGlyph:
+		for _, c := range d.Components {
+			b = w(w(b, uint16(c.Flags)), uint16(c.GlyphIndex))
+			b = append(b, c.Data...)
+		}
+		if d.Instructions != nil {
+			b = w(b, uint16(len(d.Instructions)))
+			b = append(b, d.Instructions...)
+		}
+	}
+	return b
+}
+
+// glyfUnpaddedTables lays the glyphs out without zero padding: style 0 = long loca with exact
+// (possibly odd) offsets, style 1 = every odd-length glyph followed by one non-zero junk byte
+// (short or long loca).  A decoder that keeps sub-slices of the table then holds simple-glyph
+// bytes whose spare capacity is the next glyph's header or the junk byte.
+func glyfUnpaddedTables(r *Rng, gg glyf.Glyphs, style int) (lf int, loca, data []byte) {
+	offs := []int{0}
+	for _, g := range gg {
+		raw := glyfRawGlyph(g)
+		data = append(data, raw...)
+		if style == 1 && len(data)%2 != 0 {
+			data = append(data, byte(r.Range(1, 255)))
+		}
+		offs = append(offs, len(data))
+	}
+	lf = 1
+	if style == 1 && len(data) <= 2*0xFFFF && r.Bool() {
+		lf = 0
+	}
+	for _, o := range offs {
+		if lf == 0 {
+			loca = append(loca, byte(o>>9), byte(o>>1))
+		} else {
+			loca = append(loca, byte(o>>24), byte(o>>16), byte(o>>8), byte(o))
+		}
+	}
+	return lf, loca, data
+}
+
+// glyfPoisoned returns a copy of b that is a window into a larger buffer whose remainder is
+// filled with 0xEE, and the whole buffer.
+func glyfPoisoned(b []byte) (window, whole []byte) {
+	whole = make([]byte, len(b)+6)
+	copy(whole, b)
+	for i := len(b); i < len(whole); i++ {
+		whole[i] = 0xEE
+	}
+	return whole[:len(b):len(whole)], whole
+}
+
+// glyfDecPureOp (direct predicate): Decode then Encode must not write into the caller's
+// tables — neither inside them (glyphs hold sub-slices of GlyfData) nor behind them (spare
+// capacity) — and a second Decode of the same tables gives the same glyphs.
+func glyfDecPureOp(f Fields) string {
+	return canonPanic(guard(func() string {
+		gw, gwhole := glyfPoisoned(f.Hex("glyf"))
+		lw, lwhole := glyfPoisoned(f.Hex("loca"))
+		gsnap := append([]byte(nil), gwhole...)
+		lsnap := append([]byte(nil), lwhole...)
+		enc := &glyf.Encoded{GlyfData: gw, LocaData: lw, LocaFormat: int16(f.Int("fmt"))}
+		gg, err := glyf.Decode(enc)
+		if err != nil {
+			return "rejected"
+		}
+		first := glyfShowGlyphs(gg)
+		_ = gg.Encode()
+		for i := range gwhole {
+			if gwhole[i] != gsnap[i] {
+				return fmt.Sprintf("input-modified:glyf[%d] %02x->%02x (len %d)", i, gsnap[i], gwhole[i], len(gw))
+			}
+		}
+		if !bytes.Equal(lwhole, lsnap) {
+			return "input-modified:loca"
+		}
+		gg2, err := glyf.Decode(enc)
+		if err != nil {
+			return "second-decode-fails"
+		}
+		if glyfShowGlyphs(gg2) != first {
+			return "second-decode-differs"
+		}
+		return "pure"
+	}))
+}
+
+// glyfEncPureOp (direct predicate): Encode of caller-built glyphs whose byte slices are windows
+// into larger 0xEE-filled buffers leaves those buffers alone.
+func glyfEncPureOp(f Fields) string {
+	return canonPanic(guard(func() string {
+		gg := glyfParseGlyphs(f["gs"])
+		var wholes, snaps [][]byte
+		win := func(b []byte) []byte {
+			if b == nil {
+				return nil
+			}
+			w, whole := glyfPoisoned(b)
+			wholes = append(wholes, whole)
+			snaps = append(snaps, append([]byte(nil), whole...))
+			return w
+		}
+		for _, g := range gg {
+			if g == nil {
+				continue
+			}
+			switch d := g.Data.(type) {
+			case glyf.SimpleGlyph:
+				d.Encoded = win(d.Encoded)
+				g.Data = d
+			case glyf.CompositeGlyph:
+				for i := range d.Components {
+					d.Components[i].Data = win(d.Components[i].Data)
+				}
+				d.Instructions = win(d.Instructions)
+				g.Data = d
+			}
+		}
+		before := glyfShowGlyphs(gg)
+		_ = gg.Encode()
+		for i := range wholes {
+			if !bytes.Equal(wholes[i], snaps[i]) {
+				return fmt.Sprintf("input-modified:buffer %d %s->%s", i, hx(snaps[i]), hx(wholes[i]))
+			}
+		}
+		if glyfShowGlyphs(gg) != before {
+			return "input-modified:glyphs"
+		}
+		return "pure"
+	}))
 }
 
 // glyfCompsString shows Components() of every glyph: nil, or the glyph indices.
@@ -802,7 +954,7 @@ func glyfFillerGlyph(r *Rng, size int) *glyf.Glyph {
 }
 
 func glyfGlyphEncLen(g *glyf.Glyph) int {
-	return len(glyf.Glyphs{g}.Encode().GlyfData)
+	return (len(glyfRawGlyph(g)) + 1) &^ 1
 }
 
 // glyfGenGlyphSet builds a well-formed glyph list; target > 0 asks for that exact glyf size.
@@ -920,6 +1072,15 @@ func glyfSetCase(c *Ctx, gg glyf.Glyphs, wf bool) {
 	c.Stat("decode_outcome_unmutated", glyfOutcomeClass(res))
 	if glen > 20000 {
 		return
+	}
+	// purity of Encode with respect to the caller's memory (capacity poisoning)
+	c.Case(Direct, "glyf.encpure", arg, simple > 0)
+	for style := 0; style < 2; style++ {
+		ulf, uloca, udata := glyfUnpaddedTables(r, gg, style)
+		uargs := fmt.Sprintf("fmt=%d loca=%s glyf=%s", ulf, hx(uloca), hx(udata))
+		ures := c.Case(Verdict, "glyf.decode", uargs, nontriv)
+		pres := c.Case(Direct, "glyf.decpure", uargs, strings.HasPrefix(ures, "ok:"))
+		c.Stat("unpadded_tables", fmt.Sprintf("style=%d fmt=%d %s", style, ulf, glyfOutcomeClass(pres)))
 	}
 	c.Case(Verdict, "glyf.comps", arg, comp > 0)
 	if comp > 0 {
@@ -1068,7 +1229,10 @@ func glyfSmallSetsAtFormatBoundary(c *Ctx) {
 // one): all-zero offsets (every glyph empty) and offsets delimiting one small glyph.
 func glyfLocaLengthCases(c *Ctx) {
 	r := c.Rng
-	g := glyf.Glyphs{glyfGenSimpleGlyph(c)}.Encode().GlyfData
+	g := glyfRawGlyph(glyfGenSimpleGlyph(c))
+	if len(g)%2 != 0 {
+		g = append(g, 0)
+	}
 	for _, f := range []int{0, 1, 2} {
 		for n := 0; n <= 13; n++ {
 			zero := make([]byte, n)
